@@ -60,4 +60,8 @@ Section NPNum.
     | _, _ => []
     end.
   Definition nn_zeros (n : nat) : vec := repeat (o0 O) n.
+  (* integers used in float arithmetic; row gathering D[idx, :]; column sums of a matrix with n columns (zeros for no rows) *)
+  Definition ofnat (n : nat) : t := oofZ O (Z.of_nat n).
+  Definition nn_take_rows (idx : list nat) (D : mat) : mat := map (fun i => nth i D []) idx.
+  Definition nn_sum_cols (n : nat) (A : mat) : vec := fold_right vadd (vzero n) A.
 End NPNum.
